@@ -72,17 +72,17 @@ type c17Sender struct {
 }
 
 type c17Case struct {
-	Nodes      []c17NodeSpec  `json:"nodes"`
-	Grains     []c17GrainSpec `json:"grains"`
-	Senders    []c17Sender    `json:"senders"`
-	StopAfter  int            `json:"stop_after_us"` // traffic runs this long before Stop is called
-	PillLead   int            `json:"pill_lead_us"`  // Tell+PoisonPill senders are told about the stop this long before it is called
+	Nodes     []c17NodeSpec  `json:"nodes"`
+	Grains    []c17GrainSpec `json:"grains"`
+	Senders   []c17Sender    `json:"senders"`
+	StopAfter int            `json:"stop_after_us"` // traffic runs this long before Stop is called
+	PillLead  int            `json:"pill_lead_us"`  // Tell+PoisonPill senders are told about the stop this long before it is called
 	// With a passivating grain in the case Stop is issued StopOffsetMs after the idle
 	// deadline of the FIRST passivating grain (negative: before it); StopAfter is ignored.
-	StopOffsetMs int `json:"stop_offset_ms"`
-	NoiseSeed  uint64         `json:"noise_seed"`
-	NoiseProb  float64        `json:"noise_prob"`
-	NoiseSleep int            `json:"noise_sleep_us"`
+	StopOffsetMs int     `json:"stop_offset_ms"`
+	NoiseSeed    uint64  `json:"noise_seed"`
+	NoiseProb    float64 `json:"noise_prob"`
+	NoiseSleep   int     `json:"noise_sleep_us"`
 }
 
 func c17Depths(nodes []c17NodeSpec) []int {
@@ -448,6 +448,7 @@ func c17Exec(x *vfkit.X, c c17Case) {
 			cancelSends()
 			stopCalled = true
 			_ = sys.Stop(ctx)
+			stopReturned.Store(true)
 			wg.Wait()
 			return
 		}
@@ -543,6 +544,14 @@ func c17Judge(x *vfkit.X, c c17Case, actors, grains []*c17Unit, sends [][]c17Sen
 			}
 		}
 		fmt.Fprintf(&b, "; Stop called after %dus", c.StopAfter)
+		for gi, g := range c.Grains {
+			if g.DeactivateAfterMs > 0 {
+				fmt.Fprintf(&b, "; g%d passivates after %dms idle (reentrant=%v, OnDeactivate %dus)", gi, g.DeactivateAfterMs, g.Reentrant, g.DeactWork)
+			}
+		}
+		if c.StopOffsetMs != 0 {
+			fmt.Fprintf(&b, "; Stop issued %+dms from the first idle deadline", c.StopOffsetMs)
+		}
 		return b.String()
 	}
 	x.Logf("Stop [%d..%d] err=%v", stopBegin, stopEnd, stopErr)
@@ -595,6 +604,32 @@ func c17Judge(x *vfkit.X, c c17Case, actors, grains []*c17Unit, sends [][]c17Sen
 			x.Class("with_poison_pill_in_traffic")
 			break
 		}
+	}
+	nearDeadline := false
+	for gi, g := range c.Grains {
+		if g.DeactivateAfterMs == 0 {
+			continue
+		}
+		x.Class("with_passivating_grain")
+		if c.StopOffsetMs >= -30 && c.StopOffsetMs <= 30 {
+			x.Class("stop_within_30ms_of_idle_deadline")
+			nearDeadline = true
+		}
+		u := grains[gi]
+		switch {
+		case u.stopEnter != 0 && u.stopExit != 0 && u.stopExit < stopBegin:
+			x.Class("grain_passivated_before_stop")
+		case u.stopEnter != 0 && u.stopEnter < stopBegin:
+			x.Class("grain_passivation_in_progress_when_stop_began")
+		case u.stopEnter != 0:
+			x.Class("grain_deactivated_by_stop_before_idle_deadline")
+		}
+		if !g.Reentrant {
+			x.Class("passivating_grain_not_reentrant")
+		}
+	}
+	if nearDeadline {
+		x.NonTrivial()
 	}
 	if len(grains) > 0 && deep && inFlight > 0 {
 		x.NonTrivial()
@@ -654,6 +689,11 @@ func c17Judge(x *vfkit.X, c c17Case, actors, grains []*c17Unit, sends [][]c17Sen
 		}
 		if u.starts == 1 && u.stops != 1 {
 			x.Failf(fmt.Sprintf("poststop-ran-%d-times", u.stops), "actor %s: PreStart ran once, PostStop ran %d time(s) by the time Stop returned\n%s", u.name, u.stops, desc())
+		}
+	}
+	for _, u := range append(append([]*c17Unit(nil), actors...), grains...) {
+		if u.stopOverlap {
+			x.Failf("stop-hook-overlaps-itself", "%s: two runs of its PostStop/OnDeactivate hook overlapped (entries at t=%v; Stop call [%d..%d])\n%s", u.name, u.stopEnters, stopBegin, stopEnd, desc())
 		}
 	}
 	for _, u := range grains {
@@ -737,7 +777,7 @@ func c17Judge(x *vfkit.X, c c17Case, actors, grains []*c17Unit, sends [][]c17Sen
 func TestVF_C17_sysstop(t *testing.T) {
 	vfkit.Run(t, vfkit.Spec[c17Case]{
 		ID: "C17", Unit: "sysstop",
-		Rule: "cases = one real ActorSystem with a generated forest (0..12 actors, depth <= 3), 0..5 long-lived grains of two kinds (some reentrancy-enabled), 0..6 sender goroutines doing Tell/Ask/TellGrain/AskGrain in a loop with handler think times, ActorSystem.Stop called after 0..3 ms of traffic, 3 more sends per sender after it returned, E4 schedule noise; non-trivial = >= 1 grain and a forest of depth >= 2 and at least one send whose call interval overlaps the Stop call; distinct = distinct generated programs",
+		Rule: "cases = one real ActorSystem with a generated forest (0..12 actors, depth <= 3), 0..5 long-lived grains of two kinds (some reentrancy-enabled), 0..6 sender goroutines doing Tell/Ask/TellGrain/AskGrain in a loop with handler think times, ActorSystem.Stop called after 0..3 ms of traffic, 3 more sends per sender after it returned, E4 schedule noise; in a third of the cases with grains some grains are not long-lived but passivate after 100/200/300 ms of idleness (one message each, staggered by 0..12 ms, OnDeactivate taking 2..10 ms, no sender addresses them) and Stop is issued -30..+30 ms (or far) from the first such idle deadline; non-trivial = (>= 1 grain and a forest of depth >= 2 and at least one send whose call interval overlaps the Stop call) or (a passivating grain and Stop within 30 ms of its idle deadline); distinct = distinct generated programs",
 		Gen:  c17Gen, Exec: c17Exec,
 		ReplayReps: 20,
 	})
